@@ -90,7 +90,8 @@ fn panic_site(stderr: &str) -> Option<(String, String)> {
     None
 }
 fn site_in_sut(loc: &str) -> bool {
-    !(loc.contains("e5_hydrosim/") || loc.starts_with("flows/") || loc.starts_with("harness/") || loc.starts_with("src/"))
+    // (panics of the repository's trybuild machinery are build errors, not crashes of the simulator)
+    !(loc.contains("e5_hydrosim/") || loc.starts_with("flows/") || loc.starts_with("harness/") || loc.starts_with("src/") || loc.contains("compile/trybuild/"))
 }
 fn site_file(loc: &str) -> String {
     let f = loc.rsplit('/').next().unwrap_or(loc);
@@ -394,6 +395,7 @@ pub fn run(prop: &str, args: &Args) -> LegResult {
         "leg": "e2e",
         "evaluations": evaluations,
         "distinct_nontrivial": distinct.len(),
+        "distinct_is_lower_bound": legs.iter().any(|l| l["distinct"].as_array().is_some_and(|a| a.len() >= 1_000_000)),
         "nontrivial_runs": sum("nontrivial_runs"),
         "discarded_runs": sum("discarded_runs"),
         "rule": first["rule"],
